@@ -39,11 +39,11 @@ func VH_c04_write() {
 	cA := w.rA.FeatureByAddress(vhAddr("A", []uint{1}, 1))
 	cB := w.rB.FeatureByAddress(vhAddr("B", []uint{1}, 1))
 	bm.bindingEntries = append(bm.bindingEntries, &api.BindingEntry{Id: 1, ServerFeature: w.F1, ClientFeature: cA})
-	bm.bindingNum = 1
+	vhSetBindingNum(bm, 1)
 	sm.subscriptionEntries = append(sm.subscriptionEntries,
 		&api.SubscriptionEntry{Id: 1, ServerFeature: w.F1, ClientFeature: cA},
 		&api.SubscriptionEntry{Id: 2, ServerFeature: w.F1, ClientFeature: cB})
-	sm.subscriptionNum = 2
+	vhSetSubscriptionNum(sm, 2)
 
 	// ---- stored list: two elements, identifiers 1 and 2, flag absent / true / false, one further field
 	const n = 2
